@@ -157,6 +157,72 @@ CLAIMED = {
         design_ref='DESIGN.md 6/C03',
         note='Level: fault enumeration with a correspondence-tied model; the two Coq theorems cover weight 0 and the shape of success only. No axioms.',
         technique='fault enumeration over weights 0..t per block on all sizes + Coq theorems for weight 0 and success-implies-codeword'),
+    'C16': dict(
+        text='Theorems (Coq, axiom-free), for every input, symbol list, mode set, ECI option and EVERY planner (the optimiser is a parameter of '
+             'the model): C16_first_codeword -- whenever the encoder returns a stream its first codeword is 236 if and only if macros are '
+             'enabled, no FNC1 start was requested and the message is header-05 ++ body ++ RS EOT (237 likewise for 06), and 232 if and only '
+             'if an FNC1 start was requested (needs: codewords are only ever appended -- a frame lemma through all six mode encoders incl. the '
+             'Base256 length rewrite -- and an analysis of the first codeword a header-less stream can start with); C16_detection -- '
+             'use_macro_if_possible is total and strips exactly the enveloped messages, leaving the body both as data and as the slice backup() '
+             're-reads; C16_stream_shape; C16_decoder_macro05/06 -- a Macro codeword in first position makes the decoder return header ++ body ++ '
+             'trailer; C16_decoder_fnc1. PARTIAL: that the body itself survives the mode encoders and the decoder (the lossless part) is the '
+             'data-layer round trip and is decided per case: envelope generator (intact / damaged / missing header x trailer x body lengths 0..40) '
+             'x macro x FNC1 x mode subsets, encoded and decoded by implementation and model. Four macro defects of the pinned tree were repaired.',
+        design_ref='DESIGN.md 6/C16',
+        note='Trusted: Coq kernel, translator (macro constants), extraction, harness, sort-trace hook. No axioms.',
+        technique='Coq proof: iff theorem on the first codeword via frame (append-only) invariant of all mode encoders; decoder macro theorem; per-case round trip for the body'),
+    'C11': dict(
+        text='Theorems (Coq, axiom-free), for every input, list, mode set, option and EVERY planner: C11_classification / C11_empty_list -- the error '
+             'is "symbol list empty" if and only if the supplied list is empty (the repaired upper_limit fallback is proved to return Some for every '
+             'non-empty list) and every other refusal is "too much or illegal data"; C11_macro_total, C11_eci_total (every ECI <= 999999), '
+             'C11_padding_total -- the glue cannot panic; C11_mode_encoders -- the six mode encoders raise no other error and never change the symbol '
+             'list or mode set; C11_panic_source -- a panic of the entry point can only originate in the planner or in the main loop. The '
+             'planner terminates within the bound of C19. PARTIAL: that the main loop\'s assertions (maybe_switch_mode, the no-progress guard, '
+             'x12/edifact/base256 internal asserts) never fire is planner/encoder agreement and is NOT a theorem; it is decided by running the '
+             'implementation in debug and release builds with panics caught, and the model (every panic site explicit), on the same inputs: all '
+             '64 mode subsets incl. the empty one and those without ASCII, empty / single / two-symbol lists, macro fragments, FNC1, ECI. '
+             'Four defects of the pinned tree were repaired (fix: commits).',
+        design_ref='DESIGN.md 6/C11',
+        note='Trusted: Coq kernel, translator, extraction, harness with catch_unwind, sort-trace hook; allocation failure outside the model. No axioms.',
+        technique='Coq proof: error-class and frame lemmas for the whole encoder, totality of the glue; debug/release differential correspondence with explicit panic outcomes for the main loop'),
+    'C10': dict(
+        text='Theorems (Coq, axiom-free): C10_first_fit -- for every input, sorted list, mode set, option and planner, the symbol returned is the first '
+             'listed symbol whose capacity holds the stream the encoder produced (nothing is lost to the symbol choice; later symbols never have '
+             'smaller capacity, C10_order_is_capacity). The full statement -- minimal over ALL legal encodings -- is false of the faithful model: '
+             'C10_exact_fit_refuted exhibits, by kernel evaluation of the encoder and decoder models, an 11-byte input for which a 10-codeword '
+             'stream accepted by the crate\'s own decoder exists, an 8x32 symbol is listed, and the encoder returns a 12-codeword symbol. This is the '
+             'recorded finding C10-exact-fit (known_findings.json; not a small patch). Outside that class optimality is decided per case against '
+             'an exact search over all legal streams (tools/props/refenc.best_stream: every segmentation into mode runs with every end-of-data '
+             'form, memoised), against plain ASCII / plain Base256 lengths, and refusals against the largest symbol; any miss outside the '
+             'recorded class is a VIOLATION. Two C10 defects of the pinned tree were repaired (fix: commits).',
+        design_ref='DESIGN.md 6/C10',
+        note='Trusted: Coq kernel + vm_compute, extraction, harness, sort-trace hook; refenc.py/refdec.py as independent reading of ISO/IEC 16022 5.2. No axioms.',
+        technique='Coq proof of first-fit minimality for the produced stream + kernel-evaluated counterexample for the full statement (known finding); exact-search oracle per case'),
+    'C14': dict(
+        text='Theorems (Coq, axiom-free): C14_tables / C14_helpers -- both Latin-1 helper tables, regenerated from src/data.rs on every run, are the '
+             'identity on exactly the printable ISO/IEC 8859-1 repertoire and undefined elsewhere, for every value (256-value kernel sweep + an '
+             'arithmetic argument above 255); C14_inverse -- utf8_to_latin1 s = Some l <-> latin1_to_utf8 l = Some s; C14_choice -- encode_str '
+             'encodes the string byte-for-byte with no ECI exactly when all characters are printable Latin-1 and otherwise its UTF-8 bytes with ECI '
+             '26; C14_eci_header -- that stream starts [macro]? 241 27; C14_utf8_roundtrip. PARTIAL: the round trip through the mode encoders and '
+             'decode_str is decided per case: strings from ASCII, Latin-1 supplement, C0/C1 controls, BMP, astral planes, alone and mixed, inside '
+             'and outside macro envelopes, by implementation and model; helpers on all scalars up to U+017F and all 256 bytes. The macro/backup '
+             'defect of the pinned tree was repaired (fix: commit).',
+        design_ref='DESIGN.md 6/C14',
+        note='Trusted: Coq kernel, translator (match arms of the two helpers), extraction, harness; Rust String/char modelled as scalar lists; Spec/Eci.v. No axioms.',
+        technique='Coq proof: kernel sweep over the regenerated tables lifted to all values, inverse and choice theorems; per-case string round trip'),
+    'C02': dict(
+        text='Theorems (Coq, axiom-free), for every input, list, mode set, option and EVERY planner: C02_symbol_and_length -- the symbol is a member of '
+             'the supplied list and the stream has exactly its number of data codewords; C02_error_codewords -- followed by exactly k*B error '
+             'codewords forming RS codewords (C06); C02_padding / C02_padding_form / C02_randomised_pad -- what the mode encoders wrote is never '
+             'truncated and is followed, if capacity remains, by [254 unless in ASCII], 129 and pads randomised by the 253-state algorithm at their '
+             'positions, to exactly the capacity; C02_header -- 232, 236/237, 241+designator come first in this order. PARTIAL: that the part between '
+             'header and padding is a legal mode stream decoding to the input is NOT a theorem (it needs the stream grammar for all six encoders); it '
+             'is decided per case by tools/props/refdec.py, an independent decoder written from ISO/IEC 16022 5.2 (mode tracking, shift sets, '
+             'Base256 field, end-of-symbol rules, pad check), run on the implementation\'s streams for structured inputs x lists x mode subsets x '
+             'macro/FNC1/ECI, with the model tied to the implementation on the same cases.',
+        design_ref='DESIGN.md 6/C02',
+        note='Trusted: Coq kernel, translator, extraction, harness, sort-trace hook; refdec.py as independent reading of the standard. No axioms.',
+        technique='Coq proof: symbol membership, exact lengths, padding form and header order for all inputs; reference-decoder oracle per case for the mode stream'),
 }
 
 PENDING_REASON = 'check not built yet in this round (work proceeds in the order of DESIGN.md section 11); not claimed until its quick command exists'
